@@ -27,8 +27,9 @@ META = dict(
               "the original in every compiled array and with the specification's expected / code-predicted result",
     text="TLC decides Read(Write(m)) = m for the intended writer on all models within the bounds (exhaustively for "
          "<= 3 tree nodes, simulated up to 8 nodes with 2 classes, 4 leaf kinds, 4 kinds outside the tree, keyframes "
-         "and 15 optional feature groups) and computes what the code's named deviations return; the real writer and "
-         "reader are run on every such model and on the shipped example models.",
+         "and 31 optional feature groups covering the other element kinds, default classes of every kind, assets and "
+         "compiler settings) and computes what the code's named deviations return; the real writer and reader are run "
+         "on every such model (strings and, for every 8th, files) and on the shipped example models.",
     note="The XML tokenizer/printer is the /verif shim (shim/fullxml/tinyxml2.h), not tinyxml2: character-level "
          "behaviour of tinyxml2 is not covered. Meshes needing qhull, PNG/OBJ/STL decoders and the plugin library "
          "are unavailable offline, so example models using them are skipped. Abstract attributes a/b/i are bound to "
@@ -470,6 +471,8 @@ def read_states(cfg, timeout):
         sts = list(states())
     finally:
         cleanup()
+    # TLC's workers dump states in a varying order: fix the order (case numbers select the concrete attributes)
+    sts.sort(key=lambda st: repr(key_of(st)))
     return res, sts
 
 
@@ -647,7 +650,10 @@ def run_examples(ctx, exe, quick):
             ctx.violation("rt:example-reload-fails", "%s: saved MJCF does not load: %s" % (rel, (o[2] + " " + o[4])[:300]), rep)
         elif o[5] != "eq":
             cls = classify_arrays(o[5])
-            ctx.violation("rt:nearint" if cls == "nearint" else "rt:example:" + cls, "%s: compiled arrays differ after the round trip: %s" % (rel, o[5][:300]), rep)
+            fields = o[5].split()[1::4]
+            if any(x.endswith(("_type", "_bodyid", "_parentid")) for x in fields):
+                cls = "order"        # same sizes, elements permuted: the frame-emission order of the writer
+            ctx.violation("rt:nearint" if cls == "nearint" else "rt:order" if cls == "order" else "rt:example:" + cls, "%s: compiled arrays differ after the round trip: %s" % (rel, o[5][:300]), rep)
         else:
             nok += 1
             ctx.trace_ok()
